@@ -276,6 +276,14 @@ impl Node {
             .store(st, std::sync::atomic::Ordering::SeqCst);
     }
 
+    /// Verification hook: drop the override of `verif_override_state`, so that `is_enabled` and
+    /// `is_connected` report the node's real pool again.
+    #[cfg(scylla_verif)]
+    pub fn verif_clear_override(&self) {
+        self.verif_state
+            .store(0, std::sync::atomic::Ordering::SeqCst);
+    }
+
     /// Verification hook: whether this node has a connection pool at all (the real state behind
     /// `is_enabled`, ignoring `verif_override_state`).
     #[cfg(scylla_verif)]
